@@ -84,6 +84,16 @@ def check(ctx):
             sched.memo_is_local(ctx, o, S)
     ctx.guarded(o, memo_scope)
 
+    o = ctx.ob('recursion_stays_in_wbs', 'R6d',
+               "each pass recurses over dependency links only into tasks that report the WBS being scheduled: the memo is kept by task "
+               "id, ids are unique inside one WBS only, and an outside task leads back to the caller's own tasks (same ids as the "
+               "clones) - a pass that walks out schedules those, skips the clones and the summary roll-up meets None (TypeError)", floor=4)
+
+    def stays(o):
+        for S in BOTH:
+            sched.recursion_stays_in_wbs(ctx, o, S)
+    ctx.guarded(o, stays)
+
     o = ctx.ob('loop_check_covers_recursion_edges', 'R6d',
                "the pre-flight loop check walks the wait-for graph over start/end of every task: start -> predecessor ends and parent "
                "start, end -> own start and children ends (every edge kind the passes recurse over), from every task, with fresh "
